@@ -27,7 +27,7 @@ META = {
         "warnings: at least one per unsupported non-blank line and at most one more per blank line (the documentation is silent on blank lines)",
         "a custom edge type's own from_g2o is harness code; what is checked is its dispatch (one object per line, in order, unaffected by other lines)",
     ],
-    "required_classes": ["duplicate_line", "huge_ids", "two_custom_types", "perm", "junk1", "junk2", "fmt", "sep", "loader", "crlf", "near_miss_tag", "information_with_zeros", "embedded_tag", "custom_type_with_parameters", "custom_tag", "param_resolved"],
+    "required_classes": ["duplicate_line", "huge_ids", "two_custom_types", "perm", "junk1", "junk2", "fmt", "sep", "loader", "crlf", "near_miss_tag", "ten_thousand_lines", "information_with_zeros", "embedded_tag", "custom_type_with_parameters", "custom_tag", "param_resolved"],
     "bounds": {"quick": "all 5040 + 2520 line orders; junk <= 2 insertions into 2 base files; 10 formats x every field; 3 separators x 3 endings x 6 loaders", "thorough": "same + junk pairs on every rotation of the base files + 3 insertions of the near-miss tags"},
 }
 
@@ -194,6 +194,7 @@ def chunks(tier, seed):
     out.append(("custom2", "b1", 0))
     for first in range(7):
         out.append(("custom3", "b2", first))
+    out.append(("long", "b1", 0))
     for k, tag in enumerate(SPARSE_TAGS):
         out.append(("sparse", "b1" if tag.startswith("EDGE_SE2") else "b2", k))
     out.append(("bigid", "b1", 0))
@@ -258,6 +259,10 @@ def run_chunk(chunk, tier, seed):
             for order in itertools.permutations(range(len(CUSTOM_LINES))):
                 for reg in ("AB", "BA"):
                     _do(acc, {"t": "custom2", "base": b, "order": list(order), "reg": reg}, ctx)
+        elif typ == "long":
+            # files of 10^4+ lines: every line still produces its object (line counters, progress logging, chunked reading)
+            for nlines in (9999, 10000, 10001, 20003):
+                _do(acc, {"t": "long", "base": b, "n": nlines}, ctx)
         elif typ == "sparse":
             # information with zeros: every zero / non-zero pattern of the upper triangle (2x2, 3x3); for 6x6 every pattern with <= 2 non-zeros
             tag = SPARSE_TAGS[k]
@@ -365,6 +370,17 @@ def text_of(case):
     elif t == "custom2":
         lines = [list(CUSTOM_LINES[k]) for k in case["order"]]
         classes.append("two_custom_types")
+    elif t == "long":
+        nv = 40
+        lines = [["VERTEX_SE2", str(i), repr(0.5 * i), repr(-0.25 * i), repr(0.01 * i)] for i in range(nv)]
+        k = 0
+        while len(lines) < case["n"]:
+            a, b_ = k % nv, (7 * k + 1) % nv
+            if a == b_:
+                b_ = (b_ + 1) % nv
+            lines.append(["EDGE_SE2", str(a), str(b_), repr(0.001 * k), "0.5", "-0.25", "1", "0", "0", "2", "0", repr(3.0 + k)])
+            k += 1
+        classes.append("ten_thousand_lines")
     elif t == "sparse":
         for ln in lines:
             if ln[0] == case["tag"]:
@@ -429,6 +445,8 @@ def _prelude(ctx):
         elif l[0].startswith("EDGE"):
             l[1], l[2] = remap[l[1]], remap[l[2]]
         lines.append(l)
+    # ... and every junk line of the alphabet has been seen (and warned about) before
+    lines = lines + [j[1] for j in JUNK if j[1]]
     with open(path, "w", newline="") as f:
         f.write(render(lines))
     lg = logging.getLogger("graphslam.graph")
